@@ -1,6 +1,7 @@
 import OpusModel.DecSkel
 import OpusModel.SilkPlcGains
 import OpusModel.CeltIdx
+import OpusModel.CeltIdxCalls
 import Driver.Util
 /-
   Suite `decskel` (C01 / C09): replay of one decoder call on the control skeleton.
@@ -28,6 +29,7 @@ import Driver.Util
     decskel celtreset                                        → ld=0 skip=1
     decskel celtsize <CC>                → size=<bytes> mem=<off>,… lpc=<off> oldE=<off> logE=<off> logE2=<off> bg=<off> end=<off>
     decskel pfcalls <N> <LM> <CC> <pOld> <pCur> <pNew> → pf=<c>:<xoff>,<T0>,<T1>,<n>,<ovl>;… mv=<c>:<src>,<dst>,<len>;… next=<old>,<cur>
+    decskel celtcalls good|pitch|noise <N> <LM> <C> <CC> <ds> <B> <pitch> <first> <fold> <pOld> <pCur> → <call>;… pcm=<n> scratch=<n>|-
     decskel combext <T0> <T1> <n> <ovl> <g0z> <g1z> <gsame> <inplace> → rd=<lo>..<hi>|- wr=<lo>..<hi>|-
 -/
 namespace Driver.SuiteDecSkel
@@ -172,6 +174,27 @@ def predicate (fmt : String) (st : DecState) (data : Option Bytes) (len fsz fec 
           | _ => s!"VIOLATES a packet with invalid framing decoded to {n} samples"
         | none => "OK"
 
+def arrStr : Opus.CeltIdx.Arr → String
+  | .mem c => s!"mem{c}" | .lpc => "lpc" | .freq => "freq" | .scratch => "scratch" | .X => "X" | .pcm => "pcm"
+  | .exc => "exc" | .fir => "fir" | .lpbuf => "lpbuf" | .etmp => "etmp" | .lpcMem => "loc" | .ac => "loc"
+
+def cptrStr (p : Opus.CeltIdx.Ptr) : String :=
+  match p.arr with
+  | .lpcMem | .ac => "loc+0"
+  | a => s!"{arrStr a}+{p.off}"
+
+def callStr : Opus.CeltIdx.Call → String
+  | .mdct i s o n2 ov => s!"mdct({cptrStr i},{s},{cptrStr o},{n2},{ov})"
+  | .denorm x f n => s!"denorm({cptrStr x},{cptrStr f},{n})"
+  | .copy d s n => s!"copy({cptrStr d},{cptrStr s},{n})"
+  | .comb y x t0 t1 n ovl => s!"comb({cptrStr y},{cptrStr x},{t0},{t1},{n},{ovl})"
+  | .fir x num y n ord => s!"fir({cptrStr x},{cptrStr num},{cptrStr y},{n},{ord})"
+  | .iir x den y n ord mem => s!"iir({cptrStr x},{cptrStr den},{cptrStr y},{n},{ord},{cptrStr mem})"
+  | .acorr x ac ovl lag n => s!"acorr({cptrStr x},{cptrStr ac},{ovl},{lag},{n})"
+  | .lpc l ac p => s!"lpc({cptrStr l},{cptrStr ac},{p})"
+  | .pdown x0 x1 xlp len => s!"pdown({cptrStr x0},{match x1 with | some p => cptrStr p | none => "-"},{cptrStr xlp},{len})"
+  | .psearch xlp y len maxp => s!"psearch({cptrStr xlp},{cptrStr y},{len},{maxp})"
+
 def handle : List String → String
   | ["pred", fmt, st, data, len, fsz, fec, ret, lpd] =>
     match parseState st, parseData data, parseInt len, parseInt fsz, parseInt fec, parseInt lpd with
@@ -253,6 +276,43 @@ def handle : List String → String
       let nx := Opus.CeltIdx.pfNext lm po pc pn
       s!"pf={pf} mv={mv} next={nx.1},{nx.2}"
     | _, _, _, _, _, _ => "bad-op"
+  | ["celtcalls", kind, n, lm, c, cc, ds, b, pitch, first, fold, po, pc] =>
+    match parseInt n, parseInt lm, parseInt c, parseInt cc, parseInt ds, parseInt b, parseInt pitch, parseInt first, parseInt fold, parseInt po, parseInt pc with
+    | some n, some lm, some c, some cc, some ds, some b, some pitch, some first, some fold, some po, some pc =>
+      let f : Opus.CeltIdx.Frame := { N := n, LM := lm, C := c, CC := cc, ds, B := b }
+      let shift := (List.range cc.toNat).map fun (ch : Nat) =>
+        Opus.CeltIdx.Call.copy ⟨.mem ch, 0⟩ ⟨.mem ch, n⟩ (Opus.Gen.CeltIdxConsts.DECODE_BUFFER_SIZE - n + Opus.Gen.CeltIdxConsts.overlap)
+      let calls : Option (List Opus.CeltIdx.Call) :=
+        if kind = "good" then some (shift ++ (if fold ≠ 0 then Opus.CeltIdx.foldCalls f po pc else []) ++ Opus.CeltIdx.synthCalls f)
+        else if kind = "noise" then some (Opus.CeltIdx.plcNoiseCalls f (fold ≠ 0) po pc)
+        else if kind = "pitch" then some (Opus.CeltIdx.plcPitchCalls f pitch (first ≠ 0))
+        else none
+      match calls with
+      | none => "bad-op"
+      | some calls =>
+        let cs := if calls.isEmpty then "-" else ";".intercalate (calls.map callStr)
+        let de := Opus.CeltIdx.deemphAccs f false
+        let pcmN := (de.filter fun a => a.arr == .pcm && a.write).foldl (fun (m : Int) a => max m (a.ext.hi + 1)) (0 : Int)
+        s!"{cs} pcm={pcmN} scratch={match Opus.CeltIdx.deemphScratch f false with | some n => toString n | none => "-"}"
+    | _, _, _, _, _, _, _, _, _, _, _ => "bad-op"
+  | "contract" :: fn :: args =>
+    match args.mapM parseInt with
+    | none => "bad-op"
+    | some v =>
+      let P (a : Opus.CeltIdx.Arr) : Opus.CeltIdx.Ptr := ⟨a, 0⟩
+      let call : Option Opus.CeltIdx.Call :=
+        match fn, v with
+        | "fir", [n, ord] => some (.fir (P .exc) (P .lpc) (P .fir) n ord)
+        | "iir", [n, ord] => some (.iir (P (.mem 0)) (P .lpc) (P (.mem 0)) n ord (P .lpcMem))
+        | "acorr", [ovl, lag, n] => some (.acorr (P .exc) (P .ac) ovl lag n)
+        | "lpc", [p] => some (.lpc (P .lpc) (P .ac) p)
+        | "pdown", [len, c] => some (.pdown (P (.mem 0)) (if c = 2 then some (P (.mem 1)) else none) (P .lpbuf) len)
+        | "psearch", [len, maxp] => some (.psearch (P .lpbuf) (P .lpbuf) len maxp)
+        | "mdct", [stride, n2, ov] => some (.mdct (P .freq) stride (P (.mem 0)) n2 ov)
+        | _, _ => none
+      match call with
+      | none => "bad-op"
+      | some c => ",".intercalate (c.accs.map fun a => s!"{a.ext.lo}..{a.ext.hi}{if a.write then "w" else "r"}")
   | ["combext", t0, t1, n, ovl, g0z, g1z, gs, ip] =>
     match parseInt t0, parseInt t1, parseInt n, parseInt ovl, parseInt g0z, parseInt g1z, parseInt gs, parseInt ip with
     | some t0, some t1, some n, some ovl, some g0z, some g1z, some gs, some ip =>
